@@ -73,6 +73,10 @@ type Options struct {
 	NoSite         bool // do not symbolise the rejecting call site (saves ~50us)
 	LumpBits       bool // dishonest gnark bit-decomposition hint: digits := (value, 0, 0, ...)
 	KeepChipCache  bool // do not empty the repository's process-wide chip cache around this run (as in a long-lived process)
+	// FreeDiv: value of DivUnchecked(0, 0).  gnark's builders only emit res*b == a for it, so with a == b == 0
+	// the result wire is unconstrained and a malicious prover may choose it (gnark's own solver and test engine
+	// put 0 there).  nil = 0.
+	FreeDiv *big.Int
 }
 
 type Result struct {
@@ -92,6 +96,7 @@ type Result struct {
 	// decomposition, gnark's own hints or limb splitting only) from a substituted hint output
 	RejectTainted bool
 	RejectDepth   int // smallest non-zero taint depth among the failing assertion's operands (0 = none)
+	FreeDivs      int // DivUnchecked(0, 0) calls: unconstrained wires
 }
 
 type Engine struct {
@@ -340,7 +345,14 @@ func (e *Engine) Mul(i1, i2 frontend.Variable, in ...frontend.Variable) frontend
 func (e *Engine) DivUnchecked(i1, i2 frontend.Variable) frontend.Variable {
 	a, b := e.val(i1), e.val(i2)
 	if a.e.IsZero() && b.e.IsZero() {
-		return e.newV(fr.Element{})
+		e.res.FreeDivs++
+		var x fr.Element
+		if e.opt.FreeDiv != nil {
+			x.SetBigInt(e.opt.FreeDiv)
+		}
+		o := e.newV(x)
+		o.t = maxT(a.t, b.t)
+		return o
 	}
 	return e.Div(i1, i2)
 }
